@@ -14,7 +14,7 @@ from sx.harness import exc_site
 
 PROPERTY = "C02"
 LEVEL = "model_checking"
-OPTIONS = {"quick": {"max_paths": 100000, "unit_budget_s": 1200}, "thorough": {"max_paths": 1500000, "unit_budget_s": 3300}}
+OPTIONS = {"quick": {"max_paths": 100000, "unit_budget_s": 600}, "thorough": {"max_paths": 1500000, "unit_budget_s": 3300}}
 BOUNDS = {
     "quick": {"lemma": "|R| + |D| <= 6 octets, every octet symbolic, every split, server fresh and client with a search + an extended operation outstanding", "streams": "5 streams of 1..3 messages (every message kind), contents symbolic, every single cut position incl. 0 and len (empty chunks)", "aliasing": "each stream delivered from a caller-owned bytearray that is overwritten afterwards"},
     "thorough": {"lemma": "|R| + |D| <= 8", "streams": "every pair of cut positions for streams up to 40 octets; every single cut for all", "aliasing": "same"},
